@@ -11,7 +11,8 @@ V = os.path.dirname(os.path.dirname(os.path.abspath(__file__)))
 dst = os.path.join(V, "seeded", name)
 os.makedirs(dst, exist_ok=True)
 for fn in ("patch.diff", "demo.py", "meta.json"):
-    shutil.copy(os.path.join(src, fn), os.path.join(dst, fn))
+    if os.path.abspath(src) != os.path.abspath(dst):
+        shutil.copy(os.path.join(src, fn), os.path.join(dst, fn))
 meta = json.load(open(os.path.join(dst, "meta.json")))
 tmp = tempfile.mkdtemp(prefix="seedtest-")
 repo = os.path.join(tmp, "repo")
